@@ -234,8 +234,11 @@ class Conv:
         pdus = self.cache.answer(q)
         k = min(k, len(pdus) - 1)
         b = b"".join(pdus[:k])
-        if partial and k < len(pdus):
+        if partial and k < len(pdus) and how in ("err", "close", "timeout", "stop"):
+            # a truncated PDU, then a transport fault (never followed by more bytes: that would re-frame the stream)
             b += pdus[k][:self.rnd.randint(1, len(pdus[k]) - 1)]
+        else:
+            partial = False
         self.deliver(b)
         if how == "err":
             self.s.err(1)
